@@ -37,6 +37,10 @@ const tContend = "TestContention"
 //	                 goroutine 1 Delete("s"), the others List the directory in a loop
 //	                 → every observer sees {s}* {s,t}* {t}* and the link succeeded, or {s}* {}* and
 //	                 it did not; never {} before {t}, never {t} after a failed Link
+//	create-delete-create: goroutine 0 collects: whenever List shows "x" it Links it to a fresh name
+//	                 and Deletes "x"; the others Create("x") in a loop and, when they win, Append one
+//	                 record and Close → no call panics, every collected file holds at most one
+//	                 record, every successful Create's record is in exactly one file
 type ContendCase struct {
 	Impl   string `json:"impl"`
 	Mode   string `json:"mode"`
@@ -83,6 +87,9 @@ func runContend(c ContendCase) (msg string, inconcl string) {
 		var opsDone int32
 		linkOK := false
 		seen := make([][]string, c.K) // link-delete-list: the states each observer saw, in order
+		var creatorsDone int32
+		won := make([][]int, c.K) // create-delete-create: the rounds in which creator i won the name
+		kept := 0
 		var wg sync.WaitGroup
 		for i := 0; i < c.K; i++ {
 			wg.Add(1)
@@ -100,6 +107,40 @@ func runContend(c ContendCase) (msg string, inconcl string) {
 					}
 				}
 				switch c.Mode {
+				case "create-delete-create":
+					if i == 0 {
+						for n := 0; n < 200000; n++ {
+							last := atomic.LoadInt32(&creatorsDone) == int32(c.K-1)
+							for _, nm := range fs.List(dir) {
+								if nm == "x" {
+									// only this goroutine deletes: "x" exists until the Delete below
+									if !fs.Link(dir, "x", dir, fmt.Sprintf("k%d", kept)) {
+										detail[i] = fmt.Sprintf("Link(\"x\" → \"k%d\") failed although List had just shown \"x\" and nobody else deletes it", kept)
+										return
+									}
+									kept++
+									fs.Delete(dir, "x")
+									break // a host directory scan concurrent with changes may repeat an entry
+								}
+							}
+							if last {
+								break
+							}
+							runtime.Gosched()
+						}
+						return
+					}
+					defer atomic.AddInt32(&creatorsDone, 1)
+					for j := 0; j < 150; j++ {
+						f, ok := fs.Create(dir, "x")
+						if ok {
+							won[i] = append(won[i], j)
+							fs.Append(f, sharedRecord(i, j, 16))
+							fs.Close(f)
+						} else {
+							runtime.Gosched()
+						}
+					}
 				case "link-delete-list":
 					switch i {
 					case 0:
@@ -252,6 +293,35 @@ func runContend(c ContendCase) (msg string, inconcl string) {
 			}
 		}
 		switch c.Mode {
+		case "create-delete-create":
+			files := []string{}
+			for _, nm := range fs.List(dir) {
+				files = append(files, nm)
+			}
+			found := map[[2]int]string{}
+			for _, nm := range files {
+				got := readAll(nm)
+				if len(got) != 0 && len(got) != 16 {
+					return fmt.Sprintf("round %d: file %q (a former \"x\", linked away before it was deleted) holds %d bytes; every successful Create appends exactly one 16-byte record to its own new file, so two Creates wrote into one file or an append was torn", r, nm, len(got)), ""
+				}
+				if len(got) == 16 {
+					w, j, ok := parseSharedRecord(got)
+					if !ok {
+						return fmt.Sprintf("round %d: file %q holds %x, not a record any creator appended", r, nm, got), ""
+					}
+					if prev, dup := found[[2]int{w, j}]; dup {
+						return fmt.Sprintf("round %d: the record of creator %d's Create #%d is in both %q and %q", r, w, j, prev, nm), ""
+					}
+					found[[2]int{w, j}] = nm
+				}
+			}
+			for i := 1; i < c.K; i++ {
+				for _, j := range won[i] {
+					if _, ok := found[[2]int{i, j}]; !ok {
+						return fmt.Sprintf("round %d: creator %d's Create(\"x\") #%d succeeded and it appended its record, but no file holds it (files: %d); the file it created was replaced under it", r, i, j, len(files)), ""
+					}
+				}
+			}
 		case "link-delete-list":
 			final := ""
 			for _, nm := range fs.List(dir) {
@@ -360,6 +430,19 @@ func sharedRecord(i, j, n int) []byte {
 	return b
 }
 
+// parseSharedRecord recognises one whole 16-byte-header record with n == len(b).
+func parseSharedRecord(b []byte) (writer, seq int, ok bool) {
+	if len(b) < 8 || b[0] != 0xA5 || b[1] != 0x5A || b[7] != 0xC3 {
+		return 0, 0, false
+	}
+	writer, seq = int(b[2]), int(b[3])
+	n := int(b[4]) | int(b[5])<<8 | int(b[6])<<16
+	if n != len(b) || !bytes.Equal(b, sharedRecord(writer, seq, n)) {
+		return 0, 0, false
+	}
+	return writer, seq, true
+}
+
 // checkSharedLog checks that the log is a sequence of whole records, each written record exactly
 // once, and every writer's records in the order it appended them.
 func checkSharedLog(got []byte, k int) string {
@@ -418,7 +501,7 @@ func TestContention(t *testing.T) {
 	rapid.Check(t, func(t *rapid.T) {
 		c := ContendCase{
 			Impl: rapid.SampledFrom([]string{"mem", "mem", "dir"}).Draw(t, "impl"),
-			Mode: rapid.SampledFrom([]string{"same-create", "same-link", "distinct-create", "create-vs-atomic", "link-vs-atomic", "read-vs-append", "shared-append", "link-delete-list"}).Draw(t, "mode"),
+			Mode: rapid.SampledFrom([]string{"same-create", "same-link", "distinct-create", "create-vs-atomic", "link-vs-atomic", "read-vs-append", "shared-append", "link-delete-list", "create-delete-create"}).Draw(t, "mode"),
 			K:    rapid.IntRange(2, 8).Draw(t, "k"),
 		}
 		if c.Mode == "link-delete-list" {
@@ -454,7 +537,12 @@ func TestContention(t *testing.T) {
 		if c.Impl == "dir" {
 			c.Rounds /= 10
 		}
+		if c.Mode == "create-delete-create" && c.K < 3 {
+			c.K = 3
+		}
 		switch c.Mode { // long rounds
+		case "create-delete-create":
+			c.Rounds = 1 + c.Rounds/40
 		case "link-vs-atomic":
 			c.Rounds = 2 * ev.EnvInt("VERIF_CONTEND_ROUNDS", 300) / 10
 		case "read-vs-append":
